@@ -467,6 +467,17 @@ def m_next(ctx):
         cnt = it_get(it, "count")
         if kind in ("range", "range-sub"):
             lo, hi = it_get(it, "lo"), it_get(it, "hi")
+            if kind == "range" and getattr(eng, "exact_ranges", False) and lo is not None and hi is not None and pty.get("k") == "int" \
+                    and not lo.t and not hi.t and ipath is not None and hi.c - lo.c <= 32:
+                # inside an unrolled loop (Interp.unroll_loop) a range with constant bounds is stepped exactly: next()
+                # yields the start (the end - 1 when reversed) and moves it by one; past the end it yields None
+                if lo.c >= hi.c:
+                    return [none]
+                rev = bool(it_get(it, "rev"))
+                x = Lin.const(hi.c - 1 if rev else lo.c)
+                some.env[ppath] = V_int(x)
+                some.env[ipath] = it_with(it, hi=hi - 1) if rev else it_with(it, lo=lo + 1)
+                return [some]
             if lo is not None and hi is not None and pty.get("k") == "int":
                 x = eng.fresh_int(pty, "i")
                 some.add(lo - x)
@@ -751,6 +762,18 @@ def m_saturating_sub(ctx):
     return [ctx.ret(V_int(f))]
 
 
+def m_size_of(ctx):
+    """std::mem::size_of::<T>() for the primitive integer types (a compile-time constant)."""
+    args = (ctx.t.get("callee") or {}).get("args") or []
+    if len(args) == 1 and args[0].get("ty") is not None:
+        t = ctx.eng.ty(args[0]["ty"])
+        if t.get("k") == "int" and t.get("bits") and not t.get("ptr"):
+            return [ctx.ret(V_int(Lin.const(t["bits"] // 8)))]
+        if t.get("k") == "int" and t.get("ptr"):
+            return [ctx.ret(V_int(Lin.const(8)))]
+    return None
+
+
 def m_next_multiple_of(ctx):
     """x.next_multiple_of(k), k a positive constant: the least multiple of k that is >= x (panics on overflow in debug builds)."""
     eng, st = ctx.eng, ctx.st
@@ -992,6 +1015,7 @@ EXACT = {
     "core::slice::<impl [T]>::as_mut_ptr": m_as_ptr,
     "std::iter::Iterator::map": m_iter_adapter, "std::iter::Iterator::filter": m_iter_adapter, "std::iter::Iterator::rev": m_iter_adapter,
     "std::iter::Iterator::copied": m_iter_adapter, "std::iter::Iterator::cloned": m_iter_adapter, "std::iter::Iterator::skip": m_iter_adapter,
+    "std::mem::size_of": m_size_of, "core::mem::size_of": m_size_of,
     "std::iter::Iterator::take": m_take, "std::iter::Iterator::zip": m_zip, "std::iter::Iterator::enumerate": m_enumerate,
     "<I as std::iter::IntoIterator>::into_iter": m_into_iter, "<std::vec::Vec<T, A> as std::iter::IntoIterator>::into_iter": m_into_iter,
     "std::iter::Iterator::count": m_count, "<std::iter::Filter<I, P> as std::iter::Iterator>::count": m_count,
